@@ -18,7 +18,11 @@ pub struct C05;
 #[derive(Clone, Debug, Serialize, Deserialize, PartialEq)]
 pub enum Msg {
     /// well-formed Ethernet/IPv4 ARP header, arbitrary operation; target = server address or other
-    Arp { op: u16, sha: [u8; 6], tha: [u8; 6], other_target: Option<[u8; 4]>, pad: u8 },
+    Arp { op: u16, sha: [u8; 6], tha: [u8; 6], other_target: Option<[u8; 4]>, pad: u8,
+          /// sender protocol address: 0 = the client's, 1 = equal to the target (announcement-style
+          /// request), 2 = 0.0.0.0 (probe)
+          #[serde(default)]
+          spa_mode: u8 },
     /// arbitrary htype/ptype/hlen/plen (only: no crash, and operations other than 1 get nothing)
     ArpOdd { m: ArpM, pad: u8 },
     Icmp { typ: u8, code: u8, rest: Hex, pad: u8 },
@@ -57,7 +61,7 @@ pub fn case_strategy() -> impl Strategy<Value = Case> {
         let icmp = (icmp_type(v4), prop_oneof![5 => Just(0u8), 1 => Just(1u8), 1 => Just(255u8), 1 => any::<u8>()], rest(), prop_oneof![4 => Just(0u8), 1 => 1u8..20]).prop_map(|(typ, code, rest, pad)| Msg::Icmp { typ, code, rest, pad });
         let l2: BoxedStrategy<Msg> = if v4 {
             prop_oneof![
-                5 => (op_strategy(), any::<[u8; 6]>(), any::<[u8; 6]>(), prop::option::weighted(0.3, any::<[u8; 4]>()), 0u8..19).prop_map(|(op, sha, tha, other_target, pad)| Msg::Arp { op, sha, tha, other_target, pad }),
+                5 => (op_strategy(), any::<[u8; 6]>(), prop_oneof![1 => Just([0u8; 6]), 1 => any::<[u8; 6]>(), 1 => Just([0xffu8; 6])], prop::option::weighted(0.3, any::<[u8; 4]>()), 0u8..19, prop_oneof![4 => Just(0u8), 1 => Just(1u8), 1 => Just(2u8)]).prop_map(|(op, sha, tha, other_target, pad, spa_mode)| Msg::Arp { op, sha, tha, other_target, pad, spa_mode }),
                 1 => (any::<(u16, u16, u8, u8)>(), op_strategy(), any::<([u8; 6], [u8; 4], [u8; 6], [u8; 4])>(), 0u8..19).prop_map(|((htype, ptype, hlen, plen), op, (sha, spa, tha, tpa), pad)| Msg::ArpOdd { m: ArpM { htype, ptype, hlen, plen, op, sha, spa, tha, tpa }, pad }),
             ]
             .boxed()
@@ -89,9 +93,13 @@ pub fn check(c: &Case, st: &mut Stats) -> Check {
     let net = &c.scn.net;
     let sut = Sut::new(cfg);
     match &c.msg {
-        Msg::Arp { op, sha, tha, other_target, pad } => {
+        Msg::Arp { op, sha, tha, other_target, pad, spa_mode } => {
             let tpa = other_target.unwrap_or(v4o(&net.sip));
-            let m = ArpM { htype: 1, ptype: 0x0800, hlen: 6, plen: 4, op: *op, sha: *sha, spa: v4o(&net.cip), tha: *tha, tpa };
+            let spa = match spa_mode { 1 => tpa, 2 => [0, 0, 0, 0], _ => v4o(&net.cip) };
+            if *spa_mode != 0 {
+                st.class(if *spa_mode == 1 { "arp:sender-ip=target-ip" } else { "arp:sender-ip=0.0.0.0" });
+            }
+            let m = ArpM { htype: 1, ptype: 0x0800, hlen: 6, plen: 4, op: *op, sha: *sha, spa, tha: *tha, tpa };
             let mut p = arp(&m);
             p.extend(std::iter::repeat(0u8).take(*pad as usize));
             let f = eth(&net.dmac, &net.cmac, ET_ARP, &p);
@@ -117,7 +125,7 @@ pub fn check(c: &Case, st: &mut Stats) -> Check {
                     vensure!(a.op == 2, "ARP reply operation {}", a.op);
                     vensure!(a.htype == 1 && a.ptype == 0x0800 && a.hlen == 6 && a.plen == 4, "ARP reply is not Ethernet/IPv4: htype {} ptype {:#x} hlen {} plen {}", a.htype, a.ptype, a.hlen, a.plen);
                     vensure!(a.sha == cfg.mac && a.spa == tpa, "ARP reply sender ({}, {:?}) is not (configured MAC {}, requested address {:?})", hex(&a.sha), a.spa, hex(&cfg.mac), tpa);
-                    vensure!(a.tha == *sha && a.tpa == v4o(&net.cip), "ARP reply target ({}, {:?}) is not the requester's pair ({}, {:?})", hex(&a.tha), a.tpa, hex(sha), v4o(&net.cip));
+                    vensure!(a.tha == *sha && a.tpa == spa, "ARP reply target ({}, {:?}) is not the requester's pair ({}, {:?})", hex(&a.tha), a.tpa, hex(sha), spa);
                     Ok(())
                 }
             }
@@ -238,6 +246,9 @@ pub struct Grid {
     pub v4: bool,
     pub typ: u8,
     pub code: u8,
+    /// number of bytes after the 4-byte ICMP header
+    #[serde(default)]
+    pub body_len: u8,
 }
 
 fn grid_check(g: &Grid, st: &mut Stats) -> Check {
@@ -253,6 +264,12 @@ fn grid_check(g: &Grid, st: &mut Stats) -> Check {
     body.extend_from_slice(&v6o(&net.sip));
     if g.v4 {
         body = vec![0x12, 0x34, 0x00, 0x01, b'x', b'y'];
+    }
+    if g.body_len != 0 {
+        // v6: keep reserved + target in front so that type 135 stays a valid solicitation
+        let keep = if g.v4 { 0 } else { 20 };
+        body.resize((keep).max(g.body_len as usize), 0x5a);
+        if g.v4 { body.truncate(g.body_len as usize); }
     }
     let f = if g.v4 { ip_frame(&net, P_ICMP, &icmp4(g.typ, g.code, &body)) } else { ip_frame(&net, P_ICMP6, &icmp6(&net.cip, &net.sip, g.typ, g.code, &body)) };
     st.eval();
@@ -281,22 +298,27 @@ impl Prop for C05 {
         let n = ctx.share(ctx.tier.n(3_000_000, 40_000_000));
         ctx.run_generated("msg", n, case_strategy(), check);
         let codes: Vec<u8> = if ctx.tier == Tier::Thorough { (0..=255u8).collect() } else { vec![0, 1, 2, 127, 255] };
+        // body lengths (bytes after the ICMP header): 0 = the default body; fixed-format ICMP
+        // messages (timestamp 16, address mask 8, information 4 ...) have characteristic sizes
+        let lens: Vec<u8> = if ctx.tier == Tier::Thorough { vec![0, 4, 8, 12, 16, 20, 36, 56] } else { vec![0, 4, 8, 16] };
         let mut idx = 0u64;
         for v4 in [true, false] {
             for typ in 0..=255u8 {
                 for code in &codes {
-                    idx += 1;
-                    if !ctx.owns(idx) {
-                        continue;
+                    for bl in &lens {
+                        idx += 1;
+                        if !ctx.owns(idx) {
+                            continue;
+                        }
+                        let g = Grid { v4, typ, code: *code, body_len: *bl };
+                        let r = grid_check(&g, ctx.st);
+                        ctx.run_one("grid", &g, r);
                     }
-                    let g = Grid { v4, typ, code: *code };
-                    let r = grid_check(&g, ctx.st);
-                    ctx.run_one("grid", &g, r);
                 }
             }
         }
         if ctx.worker == 0 {
-            ctx.st.exhaustive_parts.push(if ctx.tier == Tier::Thorough { "ICMP type x code: all 65536 pairs x {ICMPv4, ICMPv6}".to_string() } else { "ICMP type: all 256 types x codes {0,1,2,127,255} x {ICMPv4, ICMPv6}".to_string() });
+            ctx.st.exhaustive_parts.push(if ctx.tier == Tier::Thorough { "ICMP type x code: all 65536 pairs x {ICMPv4, ICMPv6} x 8 body lengths".to_string() } else { "ICMP type: all 256 types x codes {0,1,2,127,255} x {ICMPv4, ICMPv6} x 4 body lengths".to_string() });
         }
     }
     fn replay(&self, stream: &str, case: &Value, st: &mut Stats) -> Check {
